@@ -18,6 +18,13 @@ package uniprot
 //                                         gzip temp file, single-member and
 //                                         multi-member
 //
+// Among the well-formed documents are documents whose entries carry the
+// annotation of the real schema (c20Annot): evidence attributes holding
+// xs:list values in every white-space form, mass spectrometry comments with
+// xs:float masses, interaction, alternative products, biophysicochemical and
+// further comment kinds, positions with a status, citations, precursor and
+// fragment attributes (part 8 of TestVerifC20; one class per kind).
+//
 // Every call of Parse/Read happens in a child process (this test binary
 // re-executed with -test.run=^TestVerifC20Child$) under an address-space limit
 // and a per-case deadline, because a parser that spins or blocks cannot be
@@ -31,6 +38,7 @@ import (
 	"bytes"
 	"compress/gzip"
 	"encoding/json"
+	"encoding/xml"
 	"fmt"
 	"io"
 	"io/ioutil"
@@ -54,7 +62,8 @@ type c20Ent struct {
 	Acc  []string
 	Name []string
 	Seq  string
-	num  *c20Num // numbers to lay out in the rich form instead of the drawn ones (nil: draw)
+	num  *c20Num   // numbers to lay out in the rich form instead of the drawn ones (nil: draw)
+	ann  *c20Annot // further child elements to lay out in the rich form (nil: none)
 }
 
 // c20Num gives numeric attributes of one entry in the rich layout. A zero
@@ -159,6 +168,9 @@ func c20Build(rng *rand.Rand, ents []c20Ent, rich bool) c20Doc {
 			if rng.Intn(2) == 0 {
 				b.WriteString("  <organism>\n    <name type=\"scientific\">" + c20Word(rng, c20AlNum[:26], 4, 9) + " virus</name>\n    <dbReference type=\"NCBI Taxonomy\" id=\"" + strconv.Itoa(rng.Intn(99999)) + "\"/>\n  </organism>\n")
 			}
+			if e.ann != nil {
+				b.WriteString(e.ann.pre)
+			}
 			if rng.Intn(3) == 0 {
 				b.WriteString("  <!-- a comment -->\n  <keyword id=\"KW-1185\">Reference proteome</keyword>\n")
 			}
@@ -182,7 +194,12 @@ func c20Build(rng *rand.Rand, ents []c20Ent, rich bool) c20Doc {
 					seqVersion = e.num.SeqVersion
 				}
 			}
-			b.WriteString("  <sequence length=\"" + strconv.Itoa(len(e.Seq)) + "\" mass=\"" + strconv.Itoa(110*len(e.Seq)) + "\" checksum=\"" + c20Word(rng, "0123456789ABCDEF", 16, 16) + "\" modified=\"" + seqModified + "\" version=\"" + strconv.Itoa(seqVersion) + "\">" + e.Seq + "</sequence>\n")
+			seqAttrs := ""
+			if e.ann != nil {
+				b.WriteString(e.ann.post)
+				seqAttrs = e.ann.seqAttrs
+			}
+			b.WriteString("  <sequence length=\"" + strconv.Itoa(len(e.Seq)) + "\" mass=\"" + strconv.Itoa(110*len(e.Seq)) + "\" checksum=\"" + c20Word(rng, "0123456789ABCDEF", 16, 16) + "\" modified=\"" + seqModified + "\" version=\"" + strconv.Itoa(seqVersion) + "\"" + seqAttrs + ">" + e.Seq + "</sequence>\n")
 		} else {
 			b.WriteString("<sequence>" + e.Seq + "</sequence>")
 		}
@@ -199,6 +216,206 @@ func c20Build(rng *rand.Rand, ents []c20Ent, rich bool) c20Doc {
 	b.WriteString("\n")
 	d.text = b.Bytes()
 	return d
+}
+
+// ------------------------------------------- annotations of the real schema
+
+// c20Annot holds further child elements of one entry in the rich layout, laid
+// out the way the distributed dump has them (uniprot.xsd order: ... organism,
+// reference, comment, dbReference, proteinExistence, keyword, feature,
+// evidence, sequence).
+type c20Annot struct {
+	pre      string // reference, comment, dbReference, proteinExistence elements
+	post     string // keyword, feature, evidence elements
+	seqAttrs string // further attributes of the entry's sequence element
+}
+
+// c20ListForms: lexical forms of an xs:list of integers (the evidence
+// attribute). XML Schema Part 2, 2.5.1.2 and 4.3.6: the items of a list are
+// separated by white space and the whiteSpace facet of a list is "collapse",
+// so any run of blank, tab and newline separates two items and white space at
+// either end is not part of the value.
+var c20ListForms = []struct{ shape, what, lead, sep, trail string }{
+	{"evidence-list-several-items", "items separated by single blanks", "", " ", ""},
+	{"evidence-list-irregular-whitespace", "items separated by two blanks", "", "  ", ""},
+	{"evidence-list-irregular-whitespace", "items separated by a tab", "", "\t", ""},
+	{"evidence-list-irregular-whitespace", "items separated by a newline", "", "\n", ""},
+	{"evidence-list-irregular-whitespace", "items separated by a newline and six blanks (a wrapped attribute value)", "", "\n      ", ""},
+	{"evidence-list-irregular-whitespace", "single blanks between the items and a blank before the first", " ", " ", ""},
+	{"evidence-list-irregular-whitespace", "single blanks between the items and a blank after the last", "", " ", " "},
+	{"evidence-list-irregular-whitespace", "tabs between the items, a blank before the first and two after the last", " ", "\t", "  "},
+}
+
+var c20ListPlaces = []string{"keyword", "feature", "text of a comment", "dbReference", "strain of a reference source", "begin position of a feature"}
+
+func c20EvidenceElements(rng *rand.Rand, keys []int) string {
+	var b strings.Builder
+	for _, k := range keys {
+		switch k % 3 {
+		case 0:
+			fmt.Fprintf(&b, "  <evidence type=\"ECO:0000269\" key=\"%d\">\n    <source>\n      <dbReference type=\"PubMed\" id=\"%s\"/>\n    </source>\n  </evidence>\n", k, c20Word(rng, "123456789", 8, 8))
+		case 1:
+			fmt.Fprintf(&b, "  <evidence type=\"ECO:0000250\" key=\"%d\">\n    <source>\n      <dbReference type=\"UniProtKB\" id=\"P%s\"/>\n    </source>\n  </evidence>\n", k, c20Word(rng, "0123456789", 5, 5))
+		default:
+			fmt.Fprintf(&b, "  <evidence type=\"ECO:0000312\" key=\"%d\">\n    <source>\n      <dbReference type=\"EMBL\" id=\"AAS%s.1\"/>\n    </source>\n    <importedFrom>\n      <dbReference type=\"EMBL\" id=\"AAS%s.1\"/>\n    </importedFrom>\n  </evidence>\n", k, c20Word(rng, "0123456789", 5, 5), c20Word(rng, "0123456789", 5, 5))
+		}
+	}
+	return b.String()
+}
+
+// c20EvidenceList gives an entry whose evidence attribute at the given place
+// holds 2..4 keys in the given lexical form.
+func c20EvidenceList(rng *rand.Rand, form, place, seqLen int) (shape, what string, a c20Annot) {
+	f := c20ListForms[form]
+	var keys []int
+	var items []string
+	for k, n := 1+rng.Intn(5), 2+rng.Intn(3); len(keys) < n; k += 1 + rng.Intn(9) {
+		keys = append(keys, k)
+		items = append(items, strconv.Itoa(k))
+	}
+	list := f.lead + strings.Join(items, f.sep) + f.trail
+	at := " evidence=\"" + list + "\""
+	switch place {
+	case 0:
+		a.post = "  <keyword id=\"KW-0244\"" + at + ">Early protein</keyword>\n"
+	case 1:
+		a.post = "  <feature type=\"chain\" id=\"PRO_" + c20Word(rng, "0123456789", 10, 10) + "\" description=\"Protein " + c20Word(rng, c20AlNum, 3, 8) + "\"" + at + ">\n    <location>\n      <begin position=\"1\"/>\n      <end position=\"" + strconv.Itoa(seqLen) + "\"/>\n    </location>\n  </feature>\n"
+	case 2:
+		a.pre = "  <comment type=\"function\">\n    <text" + at + ">Plays a role in " + c20Word(rng, c20AlNum[:26], 4, 9) + " binding.</text>\n  </comment>\n"
+	case 3:
+		a.pre = "  <dbReference type=\"GO\" id=\"GO:00" + c20Word(rng, "0123456789", 5, 5) + "\"" + at + ">\n    <property type=\"term\" value=\"C:host cell nucleus\"/>\n    <property type=\"evidence\" value=\"ECO:0000501\"/>\n  </dbReference>\n"
+	case 4:
+		a.pre = "  <reference key=\"1\">\n    <citation type=\"journal article\" date=\"2004\" name=\"Virology\" volume=\"319\" first=\"337\" last=\"342\">\n      <title>Analysis of " + c20Word(rng, c20AlNum[:26], 4, 9) + ".</title>\n      <authorList>\n        <person name=\"Chapman D.A.\"/>\n      </authorList>\n      <dbReference type=\"PubMed\" id=\"14980493\"/>\n    </citation>\n    <scope>NUCLEOTIDE SEQUENCE [LARGE SCALE GENOMIC DNA]</scope>\n    <source>\n      <strain" + at + ">Isolate " + c20Word(rng, c20AlNum, 2, 6) + "</strain>\n    </source>\n  </reference>\n"
+	default:
+		a.post = "  <feature type=\"signal peptide\">\n    <location>\n      <begin position=\"1\"" + at + "/>\n      <end position=\"" + strconv.Itoa(seqLen) + "\" status=\"uncertain\"/>\n    </location>\n  </feature>\n"
+	}
+	a.post += c20EvidenceElements(rng, keys)
+	return f.shape, fmt.Sprintf("evidence=%s (an xs:list of %d integers, %s) on the %s", strconv.Quote(list), len(keys), f.what, c20ListPlaces[place]), a
+}
+
+// c20Masses: the mass attribute of a mass spectrometry comment is an xs:float.
+var c20Masses = []struct{ shape, mass, errAttr, method string }{
+	{"mass-with-fraction", "5766.4", "", "MALDI"},
+	{"mass-with-fraction", "9571.1", "0.5", "Electrospray"},
+	{"mass-with-fraction", "66463.04", "1.1", "MALDI"},
+	{"mass-with-fraction", "1882.05", "0.02", "FAB"},
+	{"mass-with-fraction", "3816030.5", "100", "Electrospray"},
+	{"mass-with-fraction", "14913.0", "", "Unknown"},
+	{"mass-integral", "14913", "2", "MALDI"},
+	{"mass-integral", "3906488", "", "Electrospray"},
+	{"mass-in-exponent-notation", "1.2E4", "", "SELDI"},
+}
+
+func c20MassComment(rng *rand.Rand, v, seqLen int) (shape, what string, a c20Annot) {
+	m := c20Masses[v]
+	attrs := " mass=\"" + m.mass + "\" method=\"" + m.method + "\""
+	if m.errAttr != "" {
+		attrs += " error=\"" + m.errAttr + "\""
+	}
+	key := 1 + rng.Intn(9)
+	a.pre = "  <comment type=\"mass spectrometry\"" + attrs + " evidence=\"" + strconv.Itoa(key) + "\">\n    <location>\n      <begin position=\"1\"/>\n      <end position=\"" + strconv.Itoa(seqLen) + "\"/>\n    </location>\n"
+	if v%2 == 1 {
+		a.pre += "    <text>The measured mass is that of the mature chain.</text>\n"
+	}
+	a.pre += "  </comment>\n"
+	a.post = c20EvidenceElements(rng, []int{key})
+	return m.shape, "<comment type=\"mass spectrometry\"" + attrs + " ...> with a location", a
+}
+
+// c20AnnKinds: the other comment kinds and typed attributes of the schema.
+var c20AnnKinds = []struct {
+	shape    string
+	variants int
+	gen      func(rng *rand.Rand, v, seqLen int) (string, c20Annot)
+}{
+	{"interaction-comment", 5, func(rng *rand.Rand, v, seqLen int) (string, c20Annot) {
+		n := []int{2, 3, 17, 128, 300}[v]
+		differ := []string{"false", "true"}[v%2]
+		id := "Q" + c20Word(rng, c20AlNum, 5, 5)
+		return fmt.Sprintf("<comment type=\"interaction\"> with <organismsDiffer>%s</organismsDiffer> and <experiments>%d</experiments>", differ, n), c20Annot{pre: "  <comment type=\"interaction\">\n    <interactant intactId=\"EBI-" + c20Word(rng, "123456789", 5, 7) + "\"/>\n    <interactant intactId=\"EBI-" + c20Word(rng, "123456789", 5, 7) + "\">\n      <id>" + id + "</id>\n      <label>" + c20Word(rng, c20AlNum[:26], 3, 6) + "</label>\n    </interactant>\n    <organismsDiffer>" + differ + "</organismsDiffer>\n    <experiments>" + strconv.Itoa(n) + "</experiments>\n  </comment>\n"}
+	}},
+	{"alternative-products-comment", 2, func(rng *rand.Rand, v, seqLen int) (string, c20Annot) {
+		acc := "P" + c20Word(rng, "0123456789", 5, 5)
+		ev := ""
+		if v == 1 {
+			ev = " evidence=\"1\""
+		}
+		return "<comment type=\"alternative products\"> with two isoforms, each with <id>, <name> and an empty <sequence type=.../> element of its own", c20Annot{pre: "  <comment type=\"alternative products\">\n    <event type=\"alternative splicing\"/>\n    <isoform>\n      <id>" + acc + "-1</id>\n      <name>1</name>\n      <sequence type=\"displayed\"/>\n    </isoform>\n    <isoform>\n      <id>" + acc + "-2</id>\n      <name" + ev + ">Short</name>\n      <sequence type=\"described\" ref=\"VSP_0" + c20Word(rng, "0123456789", 5, 5) + "\"/>\n      <text>Lacks exon 3.</text>\n    </isoform>\n  </comment>\n",
+			post: map[bool]string{true: c20EvidenceElements(rng, []int{1})}[v == 1]}
+	}},
+	{"biophysicochemical-comment", 2, func(rng *rand.Rand, v, seqLen int) (string, c20Annot) {
+		s := "  <comment type=\"biophysicochemical properties\">\n    <absorption>\n      <max evidence=\"2\">" + strconv.Itoa(250+rng.Intn(300)) + " nm</max>\n      <text>Shoulder at 335 nm.</text>\n    </absorption>\n    <kinetics>\n      <KM evidence=\"2\">1.5 mM for ATP</KM>\n      <KM>0.03 uM for NADH (at pH 7.5 and 37.5 degrees Celsius)</KM>\n      <Vmax evidence=\"2\">12.7 umol/min/mg enzyme</Vmax>\n      <text>kcat is 1.2E3 sec(-1).</text>\n    </kinetics>\n"
+		if v == 1 {
+			s += "    <phDependence>\n      <text>Optimum pH is 7.5-8.2.</text>\n    </phDependence>\n    <redoxPotential>\n      <text>E(0) is -448 mV.</text>\n    </redoxPotential>\n    <temperatureDependence>\n      <text evidence=\"2\">Optimum temperature is 37.5 degrees Celsius.</text>\n    </temperatureDependence>\n"
+		}
+		return "<comment type=\"biophysicochemical properties\"> with absorption, kinetics (KM, Vmax)" + map[bool]string{true: ", pH dependence, redox potential and temperature dependence"}[v == 1], c20Annot{pre: s + "  </comment>\n", post: c20EvidenceElements(rng, []int{2})}
+	}},
+	{"catalytic-activity-and-cofactor-comments", 2, func(rng *rand.Rand, v, seqLen int) (string, c20Annot) {
+		s := "  <comment type=\"catalytic activity\">\n    <reaction evidence=\"3\">\n      <text>ATP + H2O = ADP + phosphate + H(+)</text>\n      <dbReference type=\"Rhea\" id=\"RHEA:13065\"/>\n      <dbReference type=\"EC\" id=\"3.6.4.13\"/>\n    </reaction>\n    <physiologicalReaction direction=\"left-to-right\" evidence=\"3\">\n      <dbReference type=\"Rhea\" id=\"RHEA:13066\"/>\n    </physiologicalReaction>\n  </comment>\n"
+		if v == 1 {
+			s += "  <comment type=\"cofactor\">\n    <cofactor evidence=\"3\">\n      <name>Mg(2+)</name>\n      <dbReference type=\"ChEBI\" id=\"CHEBI:18420\"/>\n    </cofactor>\n    <text>Binds 2 magnesium ions per subunit.</text>\n  </comment>\n"
+		}
+		return "<comment type=\"catalytic activity\"> with reaction and physiologicalReaction" + map[bool]string{true: " and <comment type=\"cofactor\"> with a nested <name>"}[v == 1], c20Annot{pre: s, post: c20EvidenceElements(rng, []int{3})}
+	}},
+	{"subcellular-location-and-disease-comments", 2, func(rng *rand.Rand, v, seqLen int) (string, c20Annot) {
+		s := "  <comment type=\"subcellular location\">\n    <molecule>Isoform 1</molecule>\n    <subcellularLocation>\n      <location evidence=\"1\">Host cell membrane</location>\n      <topology evidence=\"1\">Single-pass type I membrane protein</topology>\n      <orientation>Cytoplasmic side</orientation>\n    </subcellularLocation>\n    <text>Found in " + c20Word(rng, c20AlNum[:26], 4, 9) + " bodies.</text>\n  </comment>\n"
+		if v == 1 {
+			s += "  <comment type=\"disease\">\n    <disease id=\"DI-0" + c20Word(rng, "0123456789", 4, 4) + "\">\n      <name>" + c20Word(rng, c20AlNum[:26], 4, 9) + " syndrome 2</name>\n      <acronym>" + c20Word(rng, c20AlNum[:26], 3, 4) + "2</acronym>\n      <description>A disorder characterized by &lt; 5% activity.</description>\n      <dbReference type=\"MIM\" id=\"" + c20Word(rng, "123456789", 6, 6) + "\"/>\n    </disease>\n    <text>The disease is caused by variants affecting the gene represented in this entry.</text>\n  </comment>\n  <comment type=\"online information\" name=\"Wikipedia\">\n    <link uri=\"https://en.wikipedia.org/wiki/Protein\"/>\n  </comment>\n"
+		}
+		return "<comment type=\"subcellular location\">" + map[bool]string{true: ", <comment type=\"disease\"> with a nested <name>, <comment type=\"online information\">"}[v == 1], c20Annot{pre: s, post: c20EvidenceElements(rng, []int{1})}
+	}},
+	{"sequence-caution-comment", 3, func(rng *rand.Rand, v, seqLen int) (string, c20Annot) {
+		ver := []int{1, 2, 12}[v]
+		typ := []string{"erroneous initiation", "frameshift", "erroneous gene model prediction"}[v]
+		return fmt.Sprintf("<comment type=\"sequence caution\"> with <conflict type=%q> holding an empty <sequence resource=\"EMBL-CDS\" ... version=\"%d\"/> element", typ, ver), c20Annot{pre: "  <comment type=\"sequence caution\" evidence=\"4\">\n    <conflict type=\"" + typ + "\">\n      <sequence resource=\"EMBL-CDS\" id=\"AAB" + c20Word(rng, "0123456789", 5, 5) + "\" version=\"" + strconv.Itoa(ver) + "\"/>\n    </conflict>\n    <text>Extended N-terminus.</text>\n  </comment>\n", post: c20EvidenceElements(rng, []int{4})}
+	}},
+	{"feature-position-status", 3, func(rng *rand.Rand, v, seqLen int) (string, c20Annot) {
+		loc := [][2]string{
+			{"<begin position=\"1\"/>", "<end position=\"" + strconv.Itoa(seqLen) + "\" status=\"uncertain\"/>"},
+			{"<begin status=\"unknown\"/>", "<end position=\"" + strconv.Itoa(seqLen) + "\"/>"},
+			{"<begin position=\"1\" status=\"less than\"/>", "<end position=\"" + strconv.Itoa(seqLen) + "\" status=\"greater than\"/>"},
+		}[v]
+		return "a feature located by " + loc[0] + " " + loc[1] + ", a non-terminal residue feature", c20Annot{post: "  <feature type=\"chain\" id=\"PRO_" + c20Word(rng, "0123456789", 10, 10) + "\" description=\"Protein " + c20Word(rng, c20AlNum, 3, 8) + "\">\n    <location>\n      " + loc[0] + "\n      " + loc[1] + "\n    </location>\n  </feature>\n  <feature type=\"non-terminal residue\">\n    <location>\n      <position position=\"" + strconv.Itoa(seqLen) + "\"/>\n    </location>\n  </feature>\n"}
+	}},
+	{"variant-features", 2, func(rng *rand.Rand, v, seqLen int) (string, c20Annot) {
+		p := 1 + rng.Intn(seqLen)
+		s := "  <feature type=\"sequence variant\" id=\"VAR_0" + c20Word(rng, "0123456789", 5, 5) + "\" description=\"in dbSNP:rs" + c20Word(rng, "123456789", 6, 9) + "\" evidence=\"5\">\n    <original>A</original>\n    <variation>T</variation>\n    <location>\n      <position position=\"" + strconv.Itoa(p) + "\"/>\n    </location>\n  </feature>\n"
+		if v == 1 {
+			s += "  <feature type=\"splice variant\" id=\"VSP_0" + c20Word(rng, "0123456789", 5, 5) + "\" description=\"in isoform 2\">\n    <original>MKV</original>\n    <variation>MR</variation>\n    <variation>MQ</variation>\n    <location sequence=\"P" + c20Word(rng, "0123456789", 5, 5) + "-2\">\n      <begin position=\"1\"/>\n      <end position=\"" + strconv.Itoa(p) + "\"/>\n    </location>\n  </feature>\n"
+		}
+		return "a sequence variant feature with <original> and <variation>" + map[bool]string{true: " and a splice variant feature located on another isoform"}[v == 1], c20Annot{post: s + c20EvidenceElements(rng, []int{5})}
+	}},
+	{"reference-citation", 4, func(rng *rand.Rand, v, seqLen int) (string, c20Annot) {
+		date := []string{"2003", "2003-05", "2003-05-17", "1987"}[v]
+		cit := "<citation type=\"journal article\" date=\"" + date + "\" name=\"J. Virol.\" volume=\"77\" first=\"4588\" last=\"4596\">\n      <title>The " + c20Word(rng, c20AlNum[:26], 4, 9) + " genome.</title>\n      <authorList>\n        <person name=\"Smith J.\"/>\n        <person name=\"M&#252;ller K.\"/>\n        <consortium name=\"The Genome Consortium\"/>\n      </authorList>\n      <dbReference type=\"PubMed\" id=\"12663765\"/>\n      <dbReference type=\"DOI\" id=\"10.1128/jvi.77.8.4588-4596.2003\"/>\n    </citation>"
+		if v == 3 {
+			cit = "<citation type=\"submission\" date=\"" + date + "-03\" db=\"EMBL/GenBank/DDBJ databases\">\n      <authorList>\n        <person name=\"Smith J.\"/>\n      </authorList>\n    </citation>"
+		}
+		return "a <reference> with a citation dated " + date + ", author list, scope and source", c20Annot{pre: "  <reference key=\"1\">\n    " + cit + "\n    <scope>NUCLEOTIDE SEQUENCE [LARGE SCALE GENOMIC DNA]</scope>\n    <scope>PROTEIN SEQUENCE OF 1-12</scope>\n    <source>\n      <strain>K12 / MG1655</strain>\n      <plasmid>pUC19</plasmid>\n      <tissue>Liver</tissue>\n    </source>\n  </reference>\n"}
+	}},
+	{"db-reference-and-protein-existence", 2, func(rng *rand.Rand, v, seqLen int) (string, c20Annot) {
+		s := "  <dbReference type=\"EMBL\" id=\"AY" + c20Word(rng, "0123456789", 6, 6) + "\">\n    <property type=\"protein sequence ID\" value=\"AAS" + c20Word(rng, "0123456789", 5, 5) + ".1\"/>\n    <property type=\"molecule type\" value=\"Genomic_DNA\"/>\n  </dbReference>\n"
+		if v == 1 {
+			s += "  <dbReference type=\"Ensembl\" id=\"ENST00000" + c20Word(rng, "0123456789", 6, 6) + "\">\n    <molecule id=\"P" + c20Word(rng, "0123456789", 5, 5) + "-2\"/>\n    <property type=\"protein sequence ID\" value=\"ENSP00000" + c20Word(rng, "0123456789", 6, 6) + "\"/>\n  </dbReference>\n"
+		}
+		return "dbReference elements with properties" + map[bool]string{true: " and a molecule"}[v == 1] + ", <proteinExistence>", c20Annot{pre: s + "  <proteinExistence type=\"evidence at protein level\"/>\n"}
+	}},
+	{"sequence-precursor-fragment-attributes", 4, func(rng *rand.Rand, v, seqLen int) (string, c20Annot) {
+		at := []string{" precursor=\"true\"", " fragment=\"single\"", " precursor=\"true\" fragment=\"multiple\"", " precursor=\"false\""}[v]
+		return "<sequence ..." + at + "> on the entry's sequence element", c20Annot{seqAttrs: at}
+	}},
+}
+
+// c20WellFormed reads text with the standard tokenizer to its end.
+func c20WellFormed(text []byte) error {
+	dec := xml.NewDecoder(bytes.NewReader(text))
+	for {
+		if _, err := dec.Token(); err == io.EOF {
+			return nil
+		} else if err != nil {
+			return err
+		}
+	}
 }
 
 // c20Prolog: what the small prolog document puts before its root element.
@@ -571,6 +788,7 @@ type c20Spec struct {
 	wellForm  bool
 	viaRead   bool
 	shape     string   // damage shape (class stem) for damaged inputs
+	shapes    []string // well-formed documents of part (8) in which every entry has a shape of its own: one per entry
 	want      []c20Ent // well-formed: exactly these; damaged: these must come first
 	needError bool
 	desc      string
@@ -974,6 +1192,130 @@ func TestVerifC20(t *testing.T) {
 		rng = saved
 	}
 
+	// (8) both tiers: well-formed documents in the layout of the real dump in
+	// which ONE entry (first, middle or last among k; the last one least often,
+	// so that the entries AFTER it are demanded too) carries annotation of the
+	// kinds the real schema has: evidence attributes that are xs:list values of
+	// several integers in every white-space form a list may take, mass
+	// spectrometry comments (mass is an xs:float: decimal fractions as usual in
+	// Swiss-Prot, integral values, exponent notation), interaction comments
+	// (organismsDiffer, experiments), alternative products (isoforms with <name>
+	// and <sequence> elements of their own), biophysicochemical properties,
+	// catalytic activity, cofactor, subcellular location, disease, sequence
+	// caution (a nested <sequence ... version="n"/>), positions with a status
+	// and without a number, variant features, references with citations,
+	// dbReference properties, precursor / fragment attributes on the sequence
+	// element; and documents in which EVERY entry carries one of these. All k
+	// entries must come out as from any other document. Every generated
+	// document is first read to its end with the standard tokenizer. Own
+	// stream, added last.
+	nAnnot, nMixed := 0, 0
+	{
+		saved := rng
+		rng = rand.New(rand.NewSource(seed ^ 0x202020202020))
+		var gens []func(seqLen int) (string, string, c20Annot)
+		for form := range c20ListForms {
+			for place := range c20ListPlaces {
+				form, place := form, place
+				gens = append(gens, func(n int) (string, string, c20Annot) { return c20EvidenceList(rng, form, place, n) })
+			}
+		}
+		for v := range c20Masses {
+			v := v
+			gens = append(gens, func(n int) (string, string, c20Annot) { return c20MassComment(rng, v, n) })
+		}
+		for ki := range c20AnnKinds {
+			for v := 0; v < c20AnnKinds[ki].variants; v++ {
+				kind, v := c20AnnKinds[ki], v
+				gens = append(gens, func(n int) (string, string, c20Annot) {
+					what, a := kind.gen(rng, v, n)
+					return kind.shape, what, a
+				})
+			}
+		}
+		build := func(ents []c20Ent) c20Doc {
+			d := c20Build(rng, ents, true)
+			if err := c20WellFormed(d.text); err != nil {
+				t.Fatalf("generator: the standard tokenizer refuses a generated document: %v\n%s", err, d.text)
+			}
+			return d
+		}
+		for gi, gen := range gens {
+			ks := []int{3}
+			if gi%5 == 0 {
+				ks = []int{2, 3}
+			}
+			if thorough {
+				ks = []int{1, 2, 3, 9}
+			}
+			for _, k := range ks {
+				positions := []int{[]int{0, 1, 0, 1, 2}[gi%5] % k}
+				if thorough {
+					positions = []int{0}
+					if k > 2 {
+						positions = append(positions, k/2)
+					}
+					if k > 1 {
+						positions = append(positions, k-1)
+					}
+				}
+				for _, j := range positions {
+					ents := make([]c20Ent, k)
+					for i := range ents {
+						ents[i] = c20NewEnt(rng, 60)
+					}
+					shape, what, a := gen(len(ents[j].Seq))
+					ents[j].ann = &a
+					d := build(ents)
+					where := "middle"
+					switch {
+					case k == 1:
+						where = "only"
+					case j == 0:
+						where = "first"
+					case j == k-1:
+						where = "last"
+					}
+					desc := fmt.Sprintf("entry %d of %d (the %s one) has %s; %s; the entry: %s", j+1, k, where, what, docDesc(d), strconv.Quote(c20Clip(string(d.text[d.start[j]:d.end[j]]), 900)))
+					mode := (gi + k + j) % 2
+					addParse(d.text, mode, true, shape, d.ents, false, desc)
+					if gi%3 == 0 && k == 3 {
+						addRead(c20Gzip(d.text), 1-mode, true, shape, d.ents, false, desc)
+					}
+					nAnnot++
+				}
+			}
+		}
+		mixed := 12
+		if thorough {
+			mixed = 300
+		}
+		for m := 0; m < mixed; m++ {
+			k := []int{5, 20, 60}[m%3]
+			ents := make([]c20Ent, k)
+			shapes := make([]string, k)
+			var whats []string
+			for i := range ents {
+				ents[i] = c20NewEnt(rng, 60)
+				shape, what, a := gens[rng.Intn(len(gens))](len(ents[i].Seq))
+				ents[i].ann, shapes[i] = &a, shape
+				if i < 8 {
+					whats = append(whats, fmt.Sprintf("entry %d: %s", i+1, what))
+				}
+			}
+			d := build(ents)
+			desc := "every entry carries one annotation of the kinds of this part, drawn at random (" + strings.Join(whats, "; ") + map[bool]string{true: "; ..."}[k > 8] + "); " + docDesc(d)
+			addParse(d.text, m%2, true, "annotated-entries-mixed", d.ents, false, desc)
+			specs[len(specs)-1].shapes = shapes
+			if m%4 == 0 {
+				addRead(c20Gzip(d.text), 1-m%2, true, "annotated-entries-mixed", d.ents, false, desc)
+				specs[len(specs)-1].shapes = shapes
+			}
+			nMixed++
+		}
+		rng = saved
+	}
+
 	// ------------------------------------------------------------ observe
 	queues := make([][]c20Case, workers)
 	// damaged cases (which may each cost a full deadline) are spread evenly
@@ -1003,13 +1345,19 @@ func TestVerifC20(t *testing.T) {
 		fmt.Sprintf("well-formed documents with every k in 0..200 entries (%d seeded document(s) each; 1..3 accessions, 1..2 names, sequence text 1..60 letters; compact layout or the layout of the real dump with prolog, attributes, nested <name> elements, comments, copyright), channel capacities drawn from 0..100 with every capacity 0..100 used on each channel, plus cuts of small documents that lose only trailing white space; "+
 			"plus %d documents in the layout of the real dump with k in {1, 2, 3, 9} entries (large sequences in the quick tier: k = 3 only) of which ONE, in first, middle or last position, carries a large number: entry version in %v (class version-attribute-beyond-255), sequence version in %v (sequence-version-attribute-beyond-255), "+
 			"a sequence of %v letters with its length and mass = 110 x length as attributes (sequence-length-and-mass-large), chain and single-position features ending at that length (feature-position-large), an evidence element with key in %v referred to by two features (evidence-key-large); all k entries with accessions, names and sequence text demanded as for any other document; "+
-			"plus %d documents in the layout of the real dump with k in {1, 3} entries of which ONE (position rotating) carries a valid xsd:date on a leap day or calendar edge, one of %v, as the created or the modified attribute of the entry, as the modified attribute of its sequence element, or as all three (quick tier: k = 1 only with all three); classes leap-day-date (dates on 29 February) and calendar-edge-date; all k entries demanded as for any other document; non-trivial = k >= 1",
-			reps, nLarge, c20LargeVersions, c20LargeSeqVersions, c20LargeSeqLens, c20LargeEvidenceKeys, nDates, c20Dates))
+			"plus %d documents in the layout of the real dump with k in {1, 3} entries of which ONE (position rotating) carries a valid xsd:date on a leap day or calendar edge, one of %v, as the created or the modified attribute of the entry, as the modified attribute of its sequence element, or as all three (quick tier: k = 1 only with all three); classes leap-day-date (dates on 29 February) and calendar-edge-date; all k entries demanded as for any other document; "+
+			"plus %d documents in the layout of the real dump with k = 3 (every fifth shape also k = 2; thorough tier k in {1, 2, 3, 9}) entries of which ONE (quick tier: first, middle or last in turn, the last one least often; thorough tier: each of them) carries annotation of the kinds the real schema has, every document checked with the standard tokenizer beforehand: "+
+			"an evidence attribute holding an xs:list of 2..4 integers on a keyword, a feature, the text of a comment, a dbReference, the strain of a reference source or the begin position of a feature, with its <evidence key=...> elements, in %d lexical forms: items separated by single blanks (class evidence-list-several-items) and, class evidence-list-irregular-whitespace, by two blanks, a tab, a newline, a newline plus indentation, single blanks with a blank before the first item, with a blank after the last item, tabs with blanks at both ends (XML Schema: any run of white space separates list items, white space at the ends is not part of the value); "+
+			"<comment type=\"mass spectrometry\" mass=... method=... error=...> with a location and mass in %v (classes mass-with-fraction, mass-integral, mass-in-exponent-notation; mass is an xs:float); "+
+			"interaction comments with organismsDiffer true/false and experiments in {2, 3, 17, 128, 300} (interaction-comment); alternative products with two isoforms having <id>, <name> and an empty <sequence> element of their own (alternative-products-comment); biophysicochemical properties with absorption, kinetics, pH, redox and temperature texts (biophysicochemical-comment); catalytic activity with reaction and physiologicalReaction, cofactor (catalytic-activity-and-cofactor-comments); subcellular location, disease, online information (subcellular-location-and-disease-comments); "+
+			"sequence caution with a conflict holding <sequence resource=... version=\"1|2|12\"/> (sequence-caution-comment); features located by positions with a status attribute and without a number (feature-position-status); sequence variant and splice variant features with <original>/<variation> (variant-features); references with citation dates 2003, 2003-05, 2003-05-17, 1987-03, author lists, scopes, sources (reference-citation); dbReference elements with properties and molecule, proteinExistence (db-reference-and-protein-existence); precursor and fragment attributes on the entry's sequence element (sequence-precursor-fragment-attributes); "+
+			"plus %d documents of k in {5, 20, 60} entries in which EVERY entry carries one of these annotations drawn at random (class: that of the first entry that arrives wrong; annotated-entries-mixed if entries are only missing); all k entries with accessions, names and sequence text demanded as for any other document; non-trivial = k >= 1",
+			reps, nLarge, c20LargeVersions, c20LargeSeqVersions, c20LargeSeqLens, c20LargeEvidenceKeys, nDates, c20Dates, nAnnot, len(c20ListForms), c20MassValues(), nMixed))
 	vD := newVerifRun("C20", "io/uniprot.Parse/post/damaged-prefix", common+
 		fmt.Sprintf("%d small document(s) (<= 3 entries; compact, without XML declaration in the quick tier) cut at EVERY byte offset before the end of the root element (exhaustive, %s), and, in both tiers, one small document (2 entries, "+strconv.Itoa(len(prologDoc.text))+" bytes) that starts with an XML declaration, a newline, a comment '<!-- comment -->' and a newline before the <uniprot ...> root, also cut at EVERY byte offset, so that cuts inside and right after the declaration, inside and right after the comment, in the white space before the root and inside the root start tag are all covered (each must report >= 1 error and close both channels; class stem truncated-before-root); %d larger documents (2..200 entries) damaged in or before a chosen entry: mismatched end tag, '< ' or '& ' in text, byte 0x01, missing </entry>, unterminated start tag, '<<' between entries, cut at a random offset; plain through Parse (capacities 0..100), gzip-compressed through Read, and gzip files cut at a random offset (expected entries = those wholly inside what the standard decompressor recovers); demanded: expected entries first and in order, >= 1 error (on the channel, or returned by Read), both channels closed; non-trivial = every case",
 			len(small), map[bool]string{true: "both consumers", false: "consumers alternating"}[thorough], nBig))
 	vT := newVerifRun("C20", "io/uniprot.Parse/terminates", common+"every case of the clauses entries, damaged-prefix and gzip: the consumer returns (both channels seen closed) before the deadline; non-trivial = every case")
-	vG := newVerifRun("C20", "io/uniprot.Read/post/gzip", common+"well-formed documents (k = 0..3 and every 8th k up to 200) gzip-compressed into a temp file and read through Read (capacities fixed by Read at 100/100); same demands as the entries clause; plus every k = 3 document of the large-number part of the entries clause (entry version up to "+strconv.Itoa(c20LargeVersions[len(c20LargeVersions)-1])+", sequence version, sequence length and mass, feature positions, evidence key; same classes) and every k = 3 document with all three dates set of the date part of the entries clause (classes leap-day-date, calendar-edge-date); "+
+	vG := newVerifRun("C20", "io/uniprot.Read/post/gzip", common+"well-formed documents (k = 0..3 and every 8th k up to 200) gzip-compressed into a temp file and read through Read (capacities fixed by Read at 100/100); same demands as the entries clause; plus every k = 3 document of the large-number part of the entries clause (entry version up to "+strconv.Itoa(c20LargeVersions[len(c20LargeVersions)-1])+", sequence version, sequence length and mass, feature positions, evidence key; same classes) and every k = 3 document with all three dates set of the date part of the entries clause (classes leap-day-date, calendar-edge-date); plus every third k = 3 document of the annotation part of the entries clause (evidence lists in all white-space forms, mass spectrometry and the other comment kinds, typed attributes; same classes) and every fourth document of its mixed part; "+
 		fmt.Sprintf("plus %d gzip files made of SEVERAL members (RFC 1952: a gzip file is a series of members and stands for the concatenation of their contents; pigz, bgzip and concatenated .gz parts look like this): well-formed documents of k in %s entries, the XML text split at byte positions and each piece written by its own gzip.Writer, the outputs concatenated: 2 members with the boundary after the first byte, inside the root start tag, right before an entry, right after entry 1, inside an entry; 4 members (before the first entry, after the last entry, before the last byte); 2..6 members at random byte offsets (two files per k); some with an additional member that holds no data at a random place; each file is first checked with the standard decompressor to stand for the document; all k entries demanded in order, both channels closed (class multi-member-gzip); ", nMulti, map[bool]string{true: "{1, 2, 3, 4, 5, 9, 20, 40, 100, 200}", false: "{1, 2, 3, 9, 40}"}[thorough])+
 		"non-trivial = k >= 1")
 	for _, v := range []*verifRun{vE, vD, vT, vG} {
@@ -1060,14 +1408,14 @@ func TestVerifC20(t *testing.T) {
 			v.Fail(cl, s.desc, "not terminated with both channels closed "+state)
 		}
 		// entries: exact for well-formed input, leading for damaged input
-		bad := ""
+		bad, badAt := "", -1
 		for i, w := range s.want {
 			if i >= len(o.Entries) {
 				bad = fmt.Sprintf("only %d of the %d expected entries arrived", len(o.Entries), len(s.want))
 				break
 			}
 			if !c20EntsEqual(o.Entries[i], w) {
-				bad = fmt.Sprintf("entry %d is %s, want %s", i+1, c20ShowEnt(o.Entries[i]), c20ShowEnt(w))
+				bad, badAt = fmt.Sprintf("entry %d is %s, want %s", i+1, c20ShowEnt(o.Entries[i]), c20ShowEnt(w)), i
 				break
 			}
 		}
@@ -1080,6 +1428,9 @@ func TestVerifC20(t *testing.T) {
 				cl = "entries-differ"
 				if s.shape != "" {
 					cl = s.shape // a well-formed document of a named shape (part 5)
+				}
+				if badAt >= 0 && badAt < len(s.shapes) {
+					cl = s.shapes[badAt] // the shape of the first entry that arrived wrong
 				}
 			}
 			v.Fail(cl, s.desc, bad+"; "+state)
@@ -1103,6 +1454,14 @@ var (
 	// dates of part (7): leap days (of years divisible by 4, and of 2000, which is divisible by 400), the days around them, month and year ends
 	c20Dates = []string{"2000-02-29", "2004-02-29", "1996-02-29", "2012-12-31", "2000-03-01", "1999-12-31", "1988-02-29", "2020-02-29", "2000-02-28", "2000-12-31", "2001-01-01", "1999-02-28", "2010-01-31", "2011-11-30"}
 )
+
+func c20MassValues() []string {
+	var out []string
+	for _, m := range c20Masses {
+		out = append(out, m.mass)
+	}
+	return out
+}
 
 func c20Max(a, b int) int {
 	if a > b {
